@@ -85,7 +85,7 @@ func NewDomConverter(flags ConverterFlag, builder webdoc.DocumentBuilder, pageUR
 
 func (dc *DomConverter) Convert(root *html.Node) {
 	clone := dom.Clone(root, true)
-	removeForeignRawTextElements(root, clone)
+	removeForeignRawTextElements(root, clone, false)
 	domutil.WalkNodes(clone, dc.visitNodeHandler, dc.exitNodeHandler)
 }
 
@@ -95,13 +95,18 @@ func (dc *DomConverter) Convert(root *html.Node) {
 // ordinary text, but a clone doesn't keep the namespace and the HTML serializer
 // writes the text of elements with these names without escaping it, so once the
 // output is parsed again that text becomes markup that was never part of the page.
-func removeForeignRawTextElements(src, clone *html.Node) {
+// HTML raw text elements somewhere below a MathML or SVG element (inForeign) are
+// removed as well: whether such an element is parsed as HTML again depends on
+// integration points (mtext, annotation-xml, foreignObject, ...) that the parser
+// may find in other places in the output than in the page.
+func removeForeignRawTextElements(src, clone *html.Node, inForeign bool) {
 	srcChild, cloneChild := src.FirstChild, clone.FirstChild
 	for srcChild != nil && cloneChild != nil {
 		nextSrcChild, nextCloneChild := srcChild.NextSibling, cloneChild.NextSibling
 
 		remove := false
-		if srcChild.Type == html.ElementNode && srcChild.Namespace != "" {
+		childInForeign := inForeign || (srcChild.Type == html.ElementNode && srcChild.Namespace != "")
+		if srcChild.Type == html.ElementNode && childInForeign {
 			switch srcChild.Data {
 			case "iframe", "noembed", "noframes", "noscript", "plaintext", "script", "style", "xmp":
 				remove = true
@@ -111,7 +116,7 @@ func removeForeignRawTextElements(src, clone *html.Node) {
 		if remove {
 			clone.RemoveChild(cloneChild)
 		} else {
-			removeForeignRawTextElements(srcChild, cloneChild)
+			removeForeignRawTextElements(srcChild, cloneChild, childInForeign)
 		}
 
 		srcChild, cloneChild = nextSrcChild, nextCloneChild
